@@ -211,7 +211,7 @@ def eval_case(case) -> Outcome:
             if gb is None:
                 continue
             for g in gs.graphs:
-                if g.type not in ("Composite Curves", "Shifted Composite Curves", "Grand Composite Curve"):
+                if g.type not in ("Composite Curves", "Shifted Composite Curves", "Grand Composite Curve", "Balanced Composite Curves", "Total Site Profiles", "Site Utility Grand Composite Curve"):
                     continue
                 h = next((x for x in gb.graphs if x.type == g.type), None)
                 if h is None:
@@ -219,10 +219,10 @@ def eval_case(case) -> Outcome:
                     continue
                 pa = {}
                 for sgm in g.segments:
-                    pa.setdefault(sgm.title.rsplit(" ", 1)[0] if g.type.startswith("Grand") else sgm.title, []).extend((p.x, p.y) for p in sgm.data_points)
+                    pa.setdefault(sgm.title.rsplit(" ", 1)[0] if "Grand" in g.type else sgm.title, []).extend((p.x, p.y) for p in sgm.data_points)
                 pb = {}
                 for sgm in h.segments:
-                    pb.setdefault(sgm.title.rsplit(" ", 1)[0] if g.type.startswith("Grand") else sgm.title, []).extend((p.x, p.y) for p in sgm.data_points)
+                    pb.setdefault(sgm.title.rsplit(" ", 1)[0] if "Grand" in g.type else sgm.title, []).extend((p.x, p.y) for p in sgm.data_points)
                 for title in sorted(set(pa) | set(pb)):
                     la, lb = pa.get(title, []), pb.get(title, [])
                     if (len(la) < 2) != (len(lb) < 2):
@@ -244,7 +244,7 @@ def ladder(draw, pal):
     for side, n in (("Hot", draw(st.integers(0, 3))), ("Cold", draw(st.integers(0, 3))), ("Both", draw(st.integers(0, 1)))):
         for i in range(n):
             t = float(draw(st.integers(-60, 460)))
-            g = draw(st.sampled_from([0.1, 0.1, 1.0, 10.0]))
+            g = draw(st.sampled_from([0.1, 0.1, 1.0, 10.0, 30.0, 60.0]))
             ts, tt = (t, round(t - g, 6)) if side != "Cold" else (t, round(t + g, 6))
             us.append({"name": f"{side[0]}U{i + 1}", "type": side, "t_supply": ts, "t_target": tt, "heat_flow": None, "dt_cont": draw(st.sampled_from([0.0, 2.5, 5.0])), "htc": 1.0, "price": draw(st.sampled_from([10.0, 40.0])), "active": True})
 
@@ -272,6 +272,35 @@ def ladder(draw, pal):
 
 
 @st.composite
+def loop_site(draw):
+    """Two zones and a gliding utility loop (hot water / tempered water) one grade below the steam level: the loop's
+    duty is limited by its slope, so the next level takes over in the middle of a table interval of the sink zone."""
+    a = float(draw(st.integers(3, 12)) * 10)
+    dt = draw(st.sampled_from([0.0, 5.0]))
+    w = [draw(st.sampled_from([30.0, 50.0])), draw(st.sampled_from([20.0, 40.0])), draw(st.sampled_from([60.0, 80.0]))]
+    q = lambda: draw(st.sampled_from([80.0, 200.0, 300.0, 600.0, 900.0]))  # noqa: E731
+    t1, t2, t3 = a + w[0], a + w[0] + w[1], a + w[0] + w[1] + w[2]
+
+    def S_(zone, name, ts, tt, duty):
+        return {"zone": zone, "name": name, "t_supply": ts, "t_target": tt, "heat_flow": duty, "dt_cont": dt, "htc": 1.0}
+
+    ss = [S_("P1", "C2", a, t1, q()), S_("P1", "C1", t1, t2, q()), S_("P1", "C3", t2, t3, q()), S_("P2", "H1", t3 - 20.0, a + 10.0, q()), S_("P2", "C4", a - 30.0, a, q())]
+    loop_hi = t2 + draw(st.sampled_from([5.0, 10.0, 20.0]))
+    us = [
+        {"name": "HPS", "type": "Hot", "t_supply": t3 + 50.0, "t_target": t3 + 49.0, "heat_flow": None, "dt_cont": dt, "htc": 1.0, "price": 40.0, "active": True},
+        {"name": "HW", "type": "Hot", "t_supply": loop_hi, "t_target": loop_hi - draw(st.sampled_from([40.0, 60.0, 80.0])), "heat_flow": None, "dt_cont": dt, "htc": 1.0, "price": 10.0, "active": True},
+        {"name": "CW", "type": "Cold", "t_supply": a - 45.0, "t_target": a - 35.0, "heat_flow": None, "dt_cont": dt, "htc": 1.0, "price": 5.0, "active": True},
+    ]
+    case = {"streams": ss, "utilities": us}
+    if draw(st.booleans()):  # the same on the cooling side
+        for x in ss + us:
+            x["t_supply"], x["t_target"] = -x["t_supply"], -x["t_target"]
+        for u in us:
+            u["type"] = {"Hot": "Cold", "Cold": "Hot"}[u["type"]]
+    return case
+
+
+@st.composite
 def pair(draw, tier):
     mx = 7 if tier == "quick" else 10
     pal = draw(G.palette(thirds=False))
@@ -287,6 +316,19 @@ def pair(draw, tier):
     us = draw(ladder(pal))
     base = {"streams": ss, "utilities": us}
     kind = draw(st.sampled_from(TRANSFORMS + ["mirror", "mirror", "parallel"]))
+    loop_split = False
+    if draw(st.integers(0, 5)) == 0:
+        # a ladder with a long-glide level (a hot-oil / hot-water loop) whose duty is limited by its slope: the next level
+        # takes over in the middle of a table interval, which is where a split stream adds a row
+        from .c04 import glide_ladder
+
+        is_loop = draw(st.booleans())
+        gl = draw(loop_site() if is_loop else glide_ladder(tier))
+        ss, us = gl["streams"], list(gl["utilities"])
+        base = {"streams": ss, "utilities": us}
+        if is_loop or draw(st.booleans()):
+            kind = "split"
+        loop_split = is_loop
     if gcc_base and draw(st.booleans()):
         kind = draw(st.sampled_from(["split", "mirror"]))  # the two relations that move or add rows next to pocket closures
     tr = {"kind": kind}
@@ -295,6 +337,8 @@ def pair(draw, tier):
         tr["uperm"] = draw(st.permutations(list(range(len(us)))))
     elif kind in ("split", "parallel"):
         tr["idx"] = draw(st.integers(0, 20))
+        if kind == "split" and loop_split:
+            tr["idx"] = draw(st.integers(0, 2))  # one of the sink streams of the loop site
         tr["frac"] = draw(st.sampled_from([0.5, 0.25, 0.4, 0.9, 0.125]))
     elif kind == "translate":
         tr["dT"] = draw(st.integers(-200, 200).filter(lambda k: k != 0)) * 0.5
